@@ -82,7 +82,7 @@ func propC06(r *kernel.Run) {
 	var toks []*simToken
 	nodes := []*Ident{NewIdent("A"), NewIdent("B"), NewIdent("C")}
 	registered := map[string]bool{}
-	nops := tp.Range(4, 25)
+	nops := tp.Range(4, r.Deep(25, 80))
 	create := func() {
 		withState := tp.Draw(2) == 0
 		opts := w.Opts()
